@@ -6,7 +6,7 @@ import c04_ref as R
 from c04_gen import gen_cases            # noqa: F401  (API)
 
 PROP = 'C04'
-LEAN_MODULES = ['PMV.Lemmas.Bcast', 'PMV.Lemmas.DispatchRules', 'PMV.Props.C04']
+LEAN_MODULES = ['PMV.Lemmas.Bcast', 'PMV.Lemmas.DispatchRules', 'PMV.Lemmas.DotFull', 'PMV.Props.C04', 'PMV.Props.C04Matrix']
 PARALLEL = True
 MANIFEST = {
     'text': 'Kernel-checked theorems (PMV/Lemmas/Bcast.lean, PMV/Props/C04.lean) about a code-shaped Lean model of the '
@@ -42,6 +42,7 @@ ASSUMPTIONS = [
 TRUSTED_EXTRA = ['NumPy elementwise arithmetic and broadcasting (the model\'s Arr.map2 / bidx is compared with it on every run)']
 
 TOL = 1e-12
+META_ONLY = set(['pow', 'arctan2'] + R.MATHFN)
 
 
 def scale_of(case):
@@ -60,7 +61,9 @@ def impl(case):
         r = R.run(case)
     except Exception as e:
         return C.exc_name(e)
-    return R.observe(r, scale_of(case), blank)
+    # ** and the math functions: when no element is observable (every position blank) the kind is not reported
+    kindless = case['op'] in META_ONLY and all(blank or [])
+    return R.observe(r, scale_of(case), blank, kindless)
 
 
 def sig(case, what):
